@@ -22,6 +22,7 @@ EXPLANATION = (
     "first or the second call returns; (R3) ES: sensors() and read_runtime_data() use the same table. Nothing about the methods is "
     "frozen. That real firmware refuses what the oracle refuses is assumed."
     " (R4) if sensors() remembers its result, every method that changes an attribute it reads (other than the memo's key) drops the memo on every path."
+    ' (R5, shared with C11.R2) _map_response stores an entry for every row on every path; (R6, shared with C08.R3) the fallback tests compare the rejection message with a reason text the validators produce.'
 )
 
 
